@@ -395,11 +395,17 @@ def run_fresh(probe: Dict[str, Any]) -> Dict[str, Any]:
     return _sub("fresh", {"probe": probe})
 
 
+_pool: Optional[cf.ThreadPoolExecutor] = None
+
+
 def pmap(fn, items, workers=12):
+    """order-preserving parallel map on one persistent pool (each thread keeps its fork server)"""
+    global _pool
     if not items:
         return []
-    with cf.ThreadPoolExecutor(max_workers=workers) as ex:
-        return list(ex.map(fn, items))
+    if _pool is None:
+        _pool = cf.ThreadPoolExecutor(max_workers=workers)
+    return list(_pool.map(fn, items))
 
 
 # =============================================================================== conversion to the model's language
